@@ -68,6 +68,11 @@ def shards(tier, seed):
         for d in (7, 8):
             for t in [(d, 0, 0), (d - 1, 0, 1), (d - 2, 1, 1)]:
                 sh += mk('d=7,8 (lazy blade table): sparse tuples of <=3 blades', spaces.cfg_pqr(*t), ('sparse3',), ('sparse3',), 2)
+    # cross-algebra histories: all signature orderings of one dimension in ONE process, forward and backward
+    for d in (1, 2):
+        for order in (spaces.sig(d), list(reversed(spaces.sig(d)))):
+            sh.append(dict(stratum='all signature orderings of d<=2 one after the other in one process (two orders), subsets <=2 blades',
+                           seq=[binprog.mk('seq', spaces.cfg_sig(s), ('S', 2), ('S', 2), 1)[0] for s in order]))
     return sh
 
 
@@ -130,6 +135,9 @@ def check_pair(alg, cfg, ka, kb, res, stratum, grid=False):
 
 
 def run_shard(shard):
+    if 'seq' in shard:
+        from ..common import run_sequence
+        return run_sequence(run_shard, shard)
     res = Result()
     cfg = shard['cfg']
     alg = make_algebra(cfg)
